@@ -116,6 +116,7 @@ type FuncEnc struct {
 	selfClosure      *ssa.MakeClosure          // the closure literal this function is (verified on its own)
 	noPreserve       map[*ssa.Alloc]bool       // private cells a closure callee may write (during its contract call)
 	noPreserveOuter  map[*ssa.Alloc]bool
+	invAsGoal        bool // loop invariant formulas are being built as proof goals (not assumptions)
 	fvBind           map[*ssa.FreeVar]ssa.Value
 	BodyErrs         []string          // "request body could not be read/decoded" conditions seen so far
 }
